@@ -750,6 +750,59 @@ def run_tlb(ck, mod):
     vlib.write_ndjson(ip, [{"schema": sidc, "ast": schemas[sidc]["ast"], "vecs": [cv]}])
     vlib.sh([built[bi][0], "-mode", "tlb", "-in", ip, "-out", op, "-trace", tp], cwd=ck.work, env=vlib.GOENV, timeout=300)
     ck.canary("TL-B S->C: last bit of an expected cell flipped", not vlib.read_ndjson(op)[0]["match"])
+    # ---- Either family: an expectation with the reference on the other side of the Either must be refused by both judges.
+    # The wrong cell comes from TLC (TlbShape_Gen `wrong`: the same value under the declaration with the ^ of the two sides exchanged).
+    def side_of(v):
+        for x in v["v"].values():
+            if isinstance(x, dict) and x.get("m") == "just":
+                x = x["v"]
+            if isinstance(x, dict) and "e" in x:
+                return x["e"]
+        return None
+    def wrong_pair(sid):
+        out = {}
+        for v in schemas[sid]["vecs"]:
+            if v["ty"] == "Main" and "wrong" in v and side_of(v) in ("l", "r"):
+                out.setdefault(side_of(v), v)
+        return [out[x] for x in ("l", "r")] if len(out) == 2 else None
+    fam = [sid for sid in [EBASE + 4, EBASE + 1] + sorted(schemas) if EBASE <= sid < EBASE + ECOUNT and sid in usable and sid in results
+           and all(r_["match"] for r_ in results[sid]) and sid not in rejected_by_schema and wrong_pair(sid)]
+    if not fam:
+        if bad:
+            ck.notes.append("no Either-family schema passed on this (violating) run: the wrong-side canaries were not built")
+            return
+        raise Infra("no Either-family schema to build the wrong-side canaries from")
+    sidw = fam[0]
+    pair = wrong_pair(sidw)
+    cvs = [dict(copy.deepcopy(v), cell=v["wrong"], vec=i) for i, v in enumerate(pair)]
+    bi = next(i for i, sids in enumerate(batches) if sidw in sids)
+    ip, op, tp = os.path.join(ck.work, "canary_side_in.ndjson"), os.path.join(ck.work, "canary_side_out.ndjson"), os.path.join(ck.work, "canary_side_tr.ndjson")
+    vlib.write_ndjson(ip, [{"schema": sidw, "ast": schemas[sidw]["ast"], "vecs": cvs}])
+    vlib.sh([built[bi][0], "-mode", "tlb", "-in", ip, "-out", op, "-trace", tp], cwd=ck.work, env=vlib.GOENV, timeout=300)
+    got = [r_ for r_ in vlib.read_ndjson(op) if r_.get("k") != "End"]
+    ck.canary("TL-B S->C: expected cells with the reference on the other side of the Either (left and right value, schema %d)" % sidw,
+              len(got) == 2 and not any(r_["match"] for r_ in got))
+    reset = {"k": "Reset", "schema": schemas[sidw]["ast"], "note": "schema %d" % sidw}
+    evw = []
+    for v in pair:
+        evw += [reset, {"k": "TlbMarshal", "ty": v["ty"], "v": v["v"], "err": "", "cell": v["wrong"]}]
+    p = os.path.join(ck.work, "canary_side.ndjson")
+    vlib.write_ndjson(p, evw + [{"k": "End"}])
+    st, tr, ok, evn = ck.states, ck.transitions, ck.traces_ok, ck.evaluations
+    _, rej = ck.validate_segments("TlbMini_Trace", "trace/TlbMini_Trace.cfg", p, name="canary_side")
+    ck.states, ck.transitions, ck.traces_ok, ck.evaluations = st, tr, ok, evn
+    ck.canary("TL-B C->S: recorded cells with the reference on the other side of the Either (left and right value, schema %d)" % sidw,
+              sorted(r_["line"] for r_ in rej) == [2, 4])
+    # and the same two events with the cells the declaration prescribes are accepted (the canary is about the side, not the event's form)
+    evr = []
+    for v in pair:
+        evr += [reset, {"k": "TlbMarshal", "ty": v["ty"], "v": v["v"], "err": "", "cell": v["cell"]}]
+    vlib.write_ndjson(p, evr + [{"k": "End"}])
+    _, rej = ck.validate_segments("TlbMini_Trace", "trace/TlbMini_Trace.cfg", p, name="canary_side_ctl")
+    ck.states, ck.transitions, ck.traces_ok, ck.evaluations = st, tr, ok, evn
+    if rej:
+        raise Infra("the control of the wrong-side canary (prescribed cells) was rejected")
+    ck.extra["either_family"] = {"schemas": sum(1 for sid in schemas if EBASE <= sid < EBASE + ECOUNT), "canary_schema": schemas[sidw]["text"].splitlines()[7]}
 
 
 def bad_what_of_kind(bad, schemas, kind):
